@@ -355,6 +355,15 @@ def _string_index_pointers(ctx):
     import jsonpath
     from jsonpath import JSONPatch, JSONPointer
 
+    # the builder given a path text that is not a pointer: building a patch fails only with patch errors
+    for text in ("nope", "a/b", "/a\\", "x/", "#/a", "~", "/\\u12", "/" + "9" * 30):
+        for what, fn in (("add", lambda: JSONPatch().add(text, 1)), ("remove", lambda: JSONPatch().remove(text)), ("move(from)", lambda: JSONPatch().move(text, "/a")),
+                         ("copy(path)", lambda: JSONPatch().copy("/a", text)), ("test", lambda: JSONPatch().test(text, 1)), ("replace", lambda: JSONPatch().replace(text, 1)),
+                         ("addne", lambda: JSONPatch().addne(text, 1)), ("addap", lambda: JSONPatch().addap(text, 1))):
+            ctx.count("builder-bad-path")
+            o = core.outcome(fn)
+            if "err" in o and o.get("family") != "patch":
+                ctx.violation("building a patch (also through the builder methods) fails only with patch errors", {"path": text, "builder": what}, o["err"], "JSONPatchError family")
     docs = [{"a": [1, 2]}, {"a": []}, [[1], 2], {"a": {"-5": 1, "7": 2}}, {"a": "str"}]
     toks = ["-5", "-3", "-2", "-1", "0", "1", "2", "7", "-0", "01", "+1", "#0", "#-1", "-", "", "99999999999999999999"]
     for d in docs:
